@@ -1057,7 +1057,9 @@ var basicObjects = []*ObjectSchema{
 			),
 			"multipliers": NewPropertySchema(
 				NewMapSchema(
-					NewIntSchema(nil, nil, nil),
+					// A multiplier says how many base units the unit is worth. 1 is the base unit itself, and anything
+					// below cannot be parsed or formatted (it ends in a broken expression or a division by zero).
+					NewIntSchema(PointerTo(int64(2)), nil, nil),
 					NewRefSchema("Unit", nil),
 					nil,
 					nil,
